@@ -273,8 +273,14 @@ func (p *Packer) packWalkFn(root, src, dst string, tarW *tar.Writer, meta *Meta,
 				return fmt.Errorf("failed to read symlink %q: %w", path, err)
 			}
 
-			// Check if the symlink's target falls within the root.
-			if ok, err := p.validSymlink(root, path, target); ok {
+			// Check if the symlink's target falls within the root. Inside a
+			// dereferenced directory the link must also stay within the root
+			// when read at the position it gets in the archive.
+			ok, err := p.validSymlink(root, path, target)
+			if ok && src != dst && climbsAboveRoot(root, strings.Replace(path, src, dst, 1), target) {
+				ok = false
+			}
+			if ok {
 				// We can simply copy the link.
 				header.Typeflag = tar.TypeSymlink
 				header.Linkname = filepath.ToSlash(target)
@@ -587,7 +593,7 @@ func (p *Packer) validSymlink(root, path, target string) (bool, error) {
 	if !strings.HasSuffix(rootPrefix, string(filepath.Separator)) {
 		rootPrefix += string(filepath.Separator)
 	}
-	if absTarget == absRoot || strings.HasPrefix(absTarget, rootPrefix) {
+	if (absTarget == absRoot || strings.HasPrefix(absTarget, rootPrefix)) && !climbsAboveRoot(absRoot, absPath, target) {
 		return true, nil
 	}
 
@@ -618,6 +624,39 @@ func (p *Packer) validSymlink(root, path, target string) (bool, error) {
 			path, target,
 		),
 	}
+}
+
+// climbsAboveRoot reports whether a relative symlink target, applied segment
+// by segment at the position of the link, rises above root at some point -
+// even if it comes back in by root's own name, as "../<name of root>/file"
+// does. Such a target only leads into root as long as the tree keeps its name
+// and location: read at the same position inside a slug, or after unpacking
+// into a directory of another name, it points outside.
+func climbsAboveRoot(absRoot, absPath, target string) bool {
+	if filepath.IsAbs(target) {
+		return false
+	}
+	rel, err := filepath.Rel(absRoot, filepath.Dir(absPath))
+	if err != nil {
+		return false
+	}
+	depth := 0
+	if rel != "." {
+		depth = strings.Count(filepath.ToSlash(rel), "/") + 1
+	}
+	for _, seg := range strings.Split(filepath.ToSlash(target), "/") {
+		switch seg {
+		case "", ".":
+		case "..":
+			depth--
+		default:
+			depth++
+		}
+		if depth < 0 {
+			return true
+		}
+	}
+	return false
 }
 
 // checkFileMode is used to examine an os.FileMode and determine if it should
